@@ -411,7 +411,8 @@ fn case(t: &mut Tape, st: &mut Stats) -> Verdict {
                 expected.insert(k.to_string(), v.clone());
             }
         }
-        let leaked_scope: Vec<&String> = got.keys().filter(|k| k.starts_with("scope::") && !a.vars.contains_key(*k)).collect();
+        // (looked for in the unfiltered snapshot: a name inside a private namespace that was not there before is a leftover)
+        let leaked_scope: Vec<&String> = b.vars.keys().filter(|k| k.starts_with("scope::") && !a.vars.contains_key(*k)).collect();
         if !leaked_scope.is_empty() {
             return fail(&format!("C19/{}/internal-variable-left-behind", cmd), desc("a scope:: variable survived the invocation", json!({"invocation": line, "context": ctxk, "left": leaked_scope})));
         }
